@@ -312,10 +312,14 @@ def _composite_hexagonal_aperture(rings, segment_diameter, segment_separation, x
     # center segment
     dx = x[0, 1] - x[0, 0]
     samples_per_seg = rseg / dx
-    # add 1, must avoid error in the case that non-center segments
-    # fall on a different subpixel and have different rounding
+    # add 2, must avoid error in the case that non-center segments
+    # fall on a different subpixel and have different rounding:
+    # the window is placed with int(center/dx), which is up to one sample
+    # away from the segment center, and around ceil(n/2), which is one sample
+    # above the origin n//2 for odd n.  floor(rseg/dx)+1 leaves the window
+    # one row or column short of the hexagon on one side in those cases
     # use rseg since it is what we are directly interested in
-    samples_per_seg = int(samples_per_seg+1)
+    samples_per_seg = int(samples_per_seg+2)
 
     # compute the center segment over the entire x, y array
     # so that mask covers the entirety of the x/y extent
